@@ -550,6 +550,8 @@ class _Env:
         self._set(su, "make_url_request", self.peer.make_url_request)
         self._set(hio, "_load_schema_version", W["orig_lsv"].__wrapped__)
         self._set(hio, "load_schema", self._load_schema)
+        undo, self.thread_counts = stubs.bind_thread_seams([hc, hl, hio, su], sim)    # no-op for code without threads
+        self.saved.extend(undo)
         self._set(tempfile, "tempdir", os.path.join(self.root, "tmp"))
         self._set(tempfile, "_name_sequence", stubs.NameSequence("tmp"))
         events = self.events
